@@ -35,6 +35,13 @@ Theorem C11_named_lossless :
 Proof. exact table_named_lossless. Qed.
 Print Assumptions C11_named_lossless.
 
+(* and at the remaining sites where a typed value meets an expected numeric type: compound assignment, operands, const,
+   struct field initialiser and assignment, array literal and element, optional, method argument *)
+Theorem C11_other_sites_lossless :
+  forall s t, In (s, t) other_rows -> forall v, dom s v -> dom t v.
+Proof. exact table_other_lossless. Qed.
+Print Assumptions C11_other_sites_lossless.
+
 Theorem C11_nonvacuous :
   In (PLet, I8, I16) implicit_rows /\ In (PArg, U32, I64) implicit_rows /\ In (PRet, F32, F64) implicit_rows.
 Proof. exact table_nonvacuous. Qed.
